@@ -1,4 +1,6 @@
 """C16 — JSON Patch application follows RFC 6902 and survives any patch document."""
+import sys
+sys.setrecursionlimit(30000)
 import random, copy
 from .common import *
 from . import patchgen as G
@@ -156,6 +158,16 @@ def generate(ctx):
         for patch, tags in junk_stream(rng, doc, quick):
             cs = 1 if rng.random() < 0.7 else 0
             cases.append(case(cs, doc, patch, tags))
+    # documents nested about as deep as the parser accepts: operations at the bottom, and test on deep values
+    if ctx.get('seed_index', 0) == 0:
+        for depth in (997, 998, 999):
+            d = [1, 2]
+            for _ in range(depth): d = [d]
+            bottom = '/0' * depth
+            for ops in ([G.mk_op('test', '', copy.deepcopy(d))], [G.mk_op('test', bottom, [1, 2])], [G.mk_op('replace', bottom + '/1', 5)], [G.mk_op('add', bottom + '/-', 3)],
+                        [G.mk_op('remove', bottom + '/0')], [G.mk_op('copy', bottom + '/2', frm=bottom + '/0')], [G.mk_op('move', bottom + '/1', frm=bottom + '/0')],
+                        [G.mk_op('test', bottom + '/0', 2)]):
+                cases.append(case(1, copy.deepcopy(d), ops, ['deep']))
     # pointer texts of every length around 64 / 128 / 256 bytes (boundaries of any fixed-size scratch copy of a pointer)
     if ctx.get('seed_index', 0) == 0:
         for L in list(range(58, 70)) + [126, 127, 128, 129, 254, 255, 256, 257, 258]:
